@@ -32,6 +32,10 @@ pub fn cells(tier: Tier) -> Vec<CellPlan> {
     add(cells::hierarchy("C03"), 1, 2, 4, 1.0);
     add(cells::rates("C03"), 1, 2, 4, 1.0);
     add(cells::wiring("C03", TickWiring::EveryFrame, 10), 1, 2, 4, 1.0);
+    add(cells::vis_despawns("C03", Vis::Blacklist), 0, 1, 2, 1.0);
+    add(cells::vis_despawns("C03", Vis::Whitelist), 0, 1, 2, 1.0);
+    add(cells::same_frame3("C03"), 1, 1, 2, 1.0);
+    add(cells::wrap("C03", 4), 0, 1, 3, 1.0);
     v
 }
 
